@@ -584,7 +584,19 @@ def h_rundefers(X, ins):
         if b != X.block and b not in X.cfg['dom'][X.block]:
             if b not in X.cfg['anc'].get(X.block, ()):
                 continue      # that defer statement is not executed on any path reaching this return
-            raise OutOfSubset('conditional defer in ' + X.fnkey)
+            # a defer statement that is executed on some of the paths reaching this return only: the deferred call may
+            # or may not run.  Over-approximated: everything it may write is havocked, nothing it ensures is assumed,
+            # its precondition is not checked (stated in the evidence notes)
+            from .modset import call_modset
+            dd0 = dict(d)
+            dd0['op'] = 'Call'
+            for key in sorted(call_modset(X.V, X.fn, dd0, [X.fnkey]), key=str):
+                nv = X.V.fresh_heap_const(key, X.tag + 'cdefer')
+                if key[0] == 'alloc':
+                    X.hyp(nv >= X.heap.get(key))
+                X.heap.set(key, nv)
+            X.V.notes.append('a conditional defer is over-approximated at function exit: its writes are havocked, its contract is neither checked nor assumed')
+            continue
         dd = dict(d)
         dd['op'] = 'Call'
         dd['name'] = '_defer'
